@@ -17,7 +17,9 @@ import (
 	"github.com/saucelabs/forwarder"
 	"github.com/saucelabs/forwarder/bind"
 	"github.com/saucelabs/forwarder/command/run"
+	"github.com/saucelabs/forwarder/httplog"
 	"github.com/saucelabs/forwarder/utils/cobrautil"
+	"github.com/spf13/pflag"
 
 	"verifharness/coqfmt"
 	"verifharness/rng"
@@ -370,6 +372,52 @@ func genParseCase(r *rng.R) pcaseJSON2 {
 	return pcaseJSON2{"parse", 3, user + ":" + s1 + "@" + hp, user + ":" + s2 + "@" + hp}
 }
 
+// ---------------------------------------------------------------- 1c. --log-http occurrences
+
+type ocaseJSON struct {
+	Kind  string   `json:"kind"`
+	Calls []string `json:"calls"` // each is the value of one --log-http occurrence
+}
+
+func runLogModeCase(c ocaseJSON) (string, error) {
+	api, proxy := httplog.Mode("errors"), httplog.Mode("errors")
+	fs := pflag.NewFlagSet("x", pflag.ContinueOnError)
+	bind.HTTPLogConfig(fs, []bind.NamedParam[httplog.Mode]{{Name: "api", Param: &api}, {Name: "proxy", Param: &proxy}})
+	var calls []string
+	for _, v := range c.Calls {
+		if err := fs.Set("log-http", v); err != nil {
+			return "", err
+		}
+		var es []string
+		for _, part := range strings.Split(v, ",") {
+			name, mode, ok := strings.Cut(part, ":")
+			if !ok {
+				name, mode = "", part
+			}
+			es = append(es, "("+coqfmt.Str(name)+", "+coqfmt.Str(mode)+")")
+		}
+		calls = append(calls, coqfmt.List("lentry", es))
+	}
+	return fmt.Sprintf("{| oc_init_api := %s; oc_init_proxy := %s; oc_calls := %s; oc_api := %s; oc_proxy := %s |}",
+		coqfmt.Str("errors"), coqfmt.Str("errors"), coqfmt.List("(list lentry)", calls), coqfmt.Str(string(api)), coqfmt.Str(string(proxy))), nil
+}
+
+func genLogModeCase(r *rng.R) ocaseJSON {
+	modes := []string{"none", "short-url", "url", "headers", "body", "errors"}
+	names := []string{"", "", "api:", "proxy:"}
+	n := 1 + r.Intn(4)
+	var calls []string
+	for i := 0; i < n; i++ {
+		k := 1 + r.Intn(3)
+		var parts []string
+		for j := 0; j < k; j++ {
+			parts = append(parts, r.Pick(names)+r.Pick(modes))
+		}
+		calls = append(calls, strings.Join(parts, ","))
+	}
+	return ocaseJSON{"logmode", calls}
+}
+
 // ---------------------------------------------------------------- 2. DescribeFlags on the real run command
 
 type fcaseJSON struct {
@@ -526,6 +574,7 @@ func main() {
 	var fcs []fcaseJSON
 	var ecs []ecaseJSON
 	var prs []pcaseJSON2
+	var ocs []ocaseJSON
 	var pcs []pcaseJSON
 
 	if *replay != "" {
@@ -542,6 +591,10 @@ func main() {
 			var c rcaseJSON
 			json.Unmarshal(data, &c)
 			rcs = append(rcs, c)
+		case "logmode":
+			var c ocaseJSON
+			json.Unmarshal(data, &c)
+			ocs = append(ocs, c)
 		case "parse":
 			var c pcaseJSON2
 			json.Unmarshal(data, &c)
@@ -588,6 +641,12 @@ func main() {
 		for i := 0; i < nr/2; i++ {
 			prs = append(prs, genParseCase(r))
 		}
+		ocs = append(ocs, ocaseJSON{"logmode", []string{"proxy:url", "headers"}}, ocaseJSON{"logmode", []string{"headers", "proxy:short-url"}},
+			ocaseJSON{"logmode", []string{"proxy:errors", "proxy:errors", "body"}}, ocaseJSON{"logmode", []string{"api:url,proxy:none,headers"}},
+			ocaseJSON{"logmode", []string{"proxy:url", "proxy:body"}})
+		for i := 0; i < nr/3; i++ {
+			ocs = append(ocs, genLogModeCase(r))
+		}
 		ecs = binaryPlan(r, thorough)
 		pcs = inprocessPlan(r, thorough)
 	}
@@ -612,6 +671,21 @@ func main() {
 	m.Counts["parse"] = len(pc2)
 	m.Shards = append(m.Shards, writeShards(*out, "pcases", "pcase", "pcase_model_ok", "pcase_prop_ok", pc2)...)
 	writeJSONL(*out, "pcases.jsonl", pj2)
+
+	var oc []string
+	var oj []any
+	for _, c := range ocs {
+		sx, err := runLogModeCase(c)
+		if err != nil {
+			m.Notes = append(m.Notes, "logmode: "+err.Error())
+			continue
+		}
+		oc = append(oc, sx)
+		oj = append(oj, c)
+	}
+	m.Counts["logmode"] = len(oc)
+	m.Shards = append(m.Shards, writeShards(*out, "ocases", "ocase", "ocase_model_ok", "ocase_prop_ok", oc)...)
+	writeJSONL(*out, "ocases.jsonl", oj)
 
 	var fc []string
 	var fj []any
